@@ -19,6 +19,27 @@ type CPCase struct {
 	PbOp *PbOpCase `json:"pbop,omitempty"`
 	AMO  bool     `json:"amo"`
 	Fam  int      `json:"fam,omitempty"` // 1 + index in the fixed family (0 = seeded case)
+	DB   int      `json:"db,omitempty"`  // > 0: limit on the learned constraints (their database is reduced during the run)
+}
+
+// genCPReduction: cardinality / PB problems that need a search (as for C02 / C03), solved under cutting
+// planes with a learned-constraint limit of 4 or 8: the database of learned PB constraints is reduced
+// (reduceLearnedPB, unwatchPB) during the run.
+func genCPReduction(r *Rng, tier string) CPCase {
+	c := CPCase{DB: []int{4, 8}[r.Intn(2)]}
+	if r.Chance(1, 3) {
+		c.Kind = "opt"
+		o := genOptCase(r, tier)
+		c.Opt = &o
+		return c
+	}
+	c.Kind = "constr"
+	cc := genSearchyCase(r, tier)
+	cc.Front = "pb"
+	n := maxVarConstrs(cc.Constrs)
+	cc.Constrs = append(cc.Constrs, Constr{Kind: "atleast", Lits: []int{n}, N: 0})
+	c.Opt = &OptCase{Constrs: cc.Constrs, NoCost: true}
+	return c
 }
 
 func genCPCase(r *Rng, tier string) CPCase {
@@ -135,6 +156,7 @@ func init() {
 			}},
 			{Name: "pbset-ops", Weight: 1, Make: func(r *Rng, tier string) interface{} { return genPbOpCase(r, tier) }},
 		},
+		Extra: []ExtraGen{{Gen{Name: "cp-db-reduction", Make: func(r *Rng, tier string) interface{} { return genCPReduction(r, tier) }}, 200, 6000}},
 		Run: runCPCase,
 		Classify: func(d json.RawMessage) []string {
 			var c CPCase
@@ -203,9 +225,12 @@ func runCPCase(o *Oracle, d json.RawMessage, oc *Outcome) {
 	s.CuttingPlanes = true
 	// a third of the cases with a small limit on the learned constraints, so that their database is
 	// reduced (reduceLearnedPB / unwatchPB) during the run
-	smallDB := hashString(oc.Key)%3 == 0 && c.Fam == 0 // (the enumerated family keeps its recorded behaviour and running times)
-	if smallDB {
-		s.VerifSetNbMax([]int{8, 16, 32}[hashString(oc.Key)/3%3])
+	smallDB := hashString(oc.Key)%3 == 0 || c.DB > 0
+	if c.DB > 0 {
+		s.VerifSetNbMax(c.DB)
+		oc.Tag("db-reduction-case")
+	} else if smallDB {
+		s.VerifSetNbMax([]int{4, 8, 16}[hashString(oc.Key)/3%3])
 		oc.Tag("small-learned-limit")
 	}
 	s.VerifSetLearnHook(func(pc solver.PBConstr) {
